@@ -5,6 +5,7 @@ cd "$(dirname "$0")"
 export CARGO_NET_OFFLINE=true CARGO_TARGET_DIR="$PWD/build/target"
 mkdir -p build/ocaml evidence/replay
 [ -x gen/regen_all.py ] && python3 gen/regen_all.py || true
-COQMAKE_TIMEOUT=3000 ./coqmake > build/coq_setup.log 2>&1 || { tail -40 build/coq_setup.log; exit 1; }
-(cd harness && cargo build --release --offline)
+# keep going past a file that does not build: every check (re)builds exactly the targets it needs and reports a broken one itself
+COQMAKE_TIMEOUT=3000 ./coqmake -k > build/coq_setup.log 2>&1 || { echo "setup: some Coq targets did not build (see build/coq_setup.log)"; tail -15 build/coq_setup.log; }
+(cd harness && cargo build --release --offline) || echo "setup: harness build incomplete"
 echo setup ok
